@@ -8,10 +8,10 @@ Re-checked on every run against the regenerated constants (`Gen.Root.jMap`, `Gen
 for chunk); what the text has to denote is `OjgVerif.Writer.norm` (`Writer/JsonSpec.lean`).
 
 Proved here for the `oj` writers (tight and indented, Sort on and off, OmitNil/OmitEmpty,
-HTML-safe on and off, with and without an `io.Writer`), and for `pretty` WITHOUT alignment up to its
-own rule for omitted members. The full statement for `pretty` is false (`C04_pretty_full_false`,
-`C04_pretty_noalign_full_false`: known findings); with Align the model is tied by correspondence
-and judged by the oracle only. -/
+HTML-safe on and off, with and without an `io.Writer`), and for `pretty` WITHOUT alignment, for every
+option combination (`C04_pretty_noalign`; since fix aa799cb its omission rule is the documented
+one). The full statement for `pretty` is false because of Align (`C04_pretty_full_false`: known
+finding C04-pretty-align-comma); with Align the model is tied by correspondence and judged by the oracle only. -/
 namespace OjgVerif.C04
 open OjgVerif OjgVerif.Json OjgVerif.Writer OjgVerif.Writer.Pretty
 
@@ -115,10 +115,6 @@ theorem C04_oj_stream (o : Opts) (ord : Kvs → Kvs) (hord : IsOrder ord) (limit
 theorem pretty_spaces_ws : (Gen.Pretty.spaces.toList.all Spec.isWs) = true := by decide +kernel
 
 
-/-- the `oj` options with the same meaning: `pretty` always sorts -/
-def ojOptsOf (p : POpts) : Opts :=
-  { sort := true, omitNil := p.omitNil, omitEmpty := p.omitEmpty, htmlUnsafe := p.htmlUnsafe }
-
 /-- C04 for `pretty.JSON` as the property states it: for every configuration the text is one JSON
 document denoting the tree minus exactly the members OmitNil / OmitEmpty name -/
 def C04_pretty_full : Prop :=
@@ -145,49 +141,19 @@ theorem C04_pretty_full_false : ¬ C04_pretty_full := by
   rw [align_witness_rejected] at this
   cases this
 
-/-- `[[{"a":1}],[[[5]]]]`: the first column holds a map in one row and an array in the other -/
-def mixedWitness : JV := .arr [.arr [.obj [([97], .int 1)]], .arr [.arr [.arr [.int 5]]]]
+/-- `[[{"a":1}],[[[5]]]]`: the first column holds a map in one row and an array in the other; the
+witness of the former finding C04-pretty-align-mixed (fixed in 2c87bea: such a table is not used)
+is now written as valid JSON -/
+example : Spec.accepts (prettyWrite { width := 80, maxDepth := 9, align := true } id
+    (.arr [.arr [.obj [([97], .int 1)]], .arr [.arr [.arr [.int 5]]]])) = true := by decide +kernel
 
-/-- with Align and MaxDepth 9 the model writes `[ [{"a": 1,      }], [[[]]]]`: not JSON, and the 5 is
-gone (known finding C04-pretty-align-mixed) -/
-theorem mixed_witness_rejected :
-    Spec.accepts (prettyWrite { width := 80, maxDepth := 9, align := true } id mixedWitness) = false := by
-  decide +kernel
-
-/-- the same statement with alignment switched off -/
-def C04_pretty_noalign_full : Prop :=
-  ∀ (p : POpts) (ord : Kvs → Kvs) (v : JV), p.align = false → IsOrder ord → okW v →
-    Spec.parseDoc (prettyWrite p ord v) = .one (norm (ojOptsOf p) ord v)
-
-/-- `{"a":[]}` under OmitNil alone -/
-def omitWitness : JV := .obj [([97], .arr [])]
-
-/-- … is written as `{}` -/
-theorem omit_witness_text : prettyWrite { omitNil := true } id omitWitness = [123, 125] := by
-  decide +kernel
-
-/-- it does not hold either (known finding C04-pretty-omit): the member `"a": []` is dropped although
-only OmitNil is set -/
-theorem C04_pretty_noalign_full_false : ¬ C04_pretty_noalign_full := by
-  intro h
-  have hok : okW omitWitness := by
-    simp only [omitWitness, okW, okKvs, okList, and_true]
-    decide
-  have h1 := h { omitNil := true } id omitWitness rfl (fun _ => List.Perm.refl _) hok
-  rw [omit_witness_text] at h1
-  have h2 : Spec.parseDoc [123, 125] = .one (.obj []) := by rfl
-  have h3 : norm (ojOptsOf { omitNil := true }) id omitWitness = .obj [([97], .arr [])] := by rfl
-  rw [h2, h3] at h1
-  simp at h1
-
-
-/-- what IS true of `pretty.JSON` without alignment, for every Width, MaxDepth, HTML-safe setting,
-OmitNil/OmitEmpty and iteration order: the text is ONE valid JSON document and its reading is the
-tree with members in ascending key order minus the members `skipP` names — which is what the
-options say except for empty containers under OmitNil and maps emptied by their own omissions -/
-theorem C04_pretty_partial (p : POpts) (ha : p.align = false) (ord : Kvs → Kvs) (hord : IsOrder ord)
+/-- the partial theorem: excluding exactly `Align`, `pretty.JSON` has the property as stated — for
+every Width, MaxDepth, HTML-safe setting, OmitNil/OmitEmpty and iteration order the text is ONE
+valid JSON document whose reading is the tree (members in ascending key order) minus exactly the
+members OmitNil / OmitEmpty name -/
+theorem C04_pretty_noalign (p : POpts) (ha : p.align = false) (ord : Kvs → Kvs) (hord : IsOrder ord)
     (v : JV) (hv : okW v) :
-    Spec.parseDoc (prettyWrite p ord v) = .one (normP p.omitNil p.omitEmpty ord v) := by
+    Spec.parseDoc (prettyWrite p ord v) = .one (norm (ojOptsOf p) ord v) := by
   rw [prettyWrite_eq_ptext p ord v ha]
   obtain ⟨b, t, hb, hsb⟩ := ptext_head (pwOf p ord v) ord (depth v) v 0 false hv
   have hp := parse_ptext jMap_safe pretty_spaces_ws (pwOf p ord v) ord hord (depth v + 1) v 0 false
@@ -197,15 +163,11 @@ theorem C04_pretty_partial (p : POpts) (ha : p.align = false) (ord : Kvs → Kvs
   rw [hb] at hp ⊢
   exact parseDoc_of_pValue b t _ (startByte_ne_bom b hsb) (startByte_facts b hsb).1 hp
 
-/-- … so without alignment and without OmitNil/OmitEmpty `pretty.JSON` has the property exactly as
-stated: for every Width, MaxDepth and HTML-safe setting the text denotes the tree -/
-theorem C04_pretty_noomit (p : POpts) (ha : p.align = false) (hn : p.omitNil = false) (he : p.omitEmpty = false)
-    (ord : Kvs → Kvs) (hord : IsOrder ord) (v : JV) (hv : okW v) :
-    Spec.parseDoc (prettyWrite p ord v) = .one (norm (ojOptsOf p) ord v) := by
-  have ho : omits (ojOptsOf p) = fun _ => false := omits_off (ojOptsOf p) hn he
-  rw [C04_pretty_partial p ha ord hord v hv, hn, he]
-  simp only [normP, norm, normF, skipP_off, ho]
-  rfl
+/-- `{"a":[],"b":{"c":null},"d":null}` under OmitNil alone: the witness of the former finding
+C04-pretty-omit (fixed in aa799cb) now keeps `"a"` and `"b"` -/
+example : prettyWrite { omitNil := true } id
+    (.obj [([97], .arr []), ([98], .obj [([99], .null)]), ([100], .null)]) =
+    [123, 34, 97, 34, 58, 32, 91, 93, 44, 32, 34, 98, 34, 58, 32, 123, 125, 125] := by decide +kernel
 
 /-- streaming: without alignment the chunks `pretty.WriteJSON` hands over are, joined, the in-memory
 text, for every WriteLimit -/
